@@ -5,6 +5,19 @@ HERE = os.path.dirname(os.path.dirname(os.path.abspath(__file__)))
 ALL = ["C%02d" % i for i in range(1, 21)]
 
 CHECKS = {
+ "C14": dict(
+  category="model_checking",
+  text="TraceIR.tla states the documented shape of the intermediate representation as nine named clauses (NameOK, DocOK, ReturnsOK, "
+       "NoDup, SigCovered, ParamNamesOK, ParamKeysOK, ParamTypOK, ParamDocOK); every interface description returned by a real parser "
+       "during the run is projected to a shape record and checked by TLC (one state per record, rejected records printed with "
+       "their failing clauses, corrupted-record binding demonstration on every run). Drivers: re-parsed emissions of TLC-"
+       "enumerated Formats/Docstring behaviours, every repository mock through the parser the repository's own infer() selects, "
+       "grammar-generated docstrings in three styles and generated functions with every argument kind, and arbitrary text "
+       "(TLC-enumerated token sequences plus seeded random fragments) for the docstring parser whenever it returns.",
+  design_ref="DESIGN.md section 4, C14",
+  note="Trusted: the shape projection (typ parses = ast.parse(typ, mode='eval')). Coverage outside the TLC-enumerated part is that of "
+       "the seeded generators.",
+  technique="TLA+ shape predicate evaluated by TLC on recorded parser outputs (batched trace validation); inputs partly TLC-enumerated"),
  "C10": dict(
   category="model_checking",
   text="Determinism.tla: two interpreter processes with different hash seeds, leaked state and call histories call the modelled "
